@@ -6,7 +6,7 @@ import json, re, subprocess, sys
 from pathlib import Path
 V = Path("/verif")
 props = [a for a in sys.argv[1:] if not a.startswith("--")]
-seeds = sorted(p for p in (V / "seeded").iterdir() if p.is_dir())
+seeds = sorted(p for p in (V / "seeded").iterdir() if p.is_dir() and (p / "meta.json").exists())
 rows = []
 for sd in seeds:
     meta = json.loads((sd / "meta.json").read_text())
